@@ -5,6 +5,8 @@
 // ------------------------------------------------------------------ scope
 struct Scope {
   int sigma = 2, L = 2, maxn = 0, co = -1, nf = 2, minn = 1, exact = 0;
+  int rep = 1;                   // replication: the set is repeated under `rep` distinct 2-byte group tags (many copies of one small pattern:
+                                 // reaches the short-codeword regime of the statistical coders, which a handful of strings never does)
   str ramp;                      // "lex" | "shortlex" | "both": the sets are the first n strings of the universe in that order, n = 1..|U|
   std::vector<int> pres = {0};   // length of a common prefix prepended to every string (VByte boundaries of the shared-prefix length)
   std::vector<int> pals = {0}, stretches = {1};
@@ -23,6 +25,7 @@ struct Scope {
       else if (e[0] == "co") sc.co = atoi(e[1].c_str());
       else if (e[0] == "nf") sc.nf = atoi(e[1].c_str());
       else if (e[0] == "exact") sc.exact = atoi(e[1].c_str());
+      else if (e[0] == "rep") sc.rep = atoi(e[1].c_str());
       else if (e[0] == "ramp") sc.ramp = e[1];
       else if (e[0] == "pd") sc.pd = e[1];
       else if (e[0] == "pal") { sc.pals.clear(); for (auto &x : split(e[1], '+')) sc.pals.push_back(pal_by_name(x)); }
@@ -132,19 +135,35 @@ static strs sources_for(int k, const str &pd) {
 // ------------------------------------------------------------------ unit = (set, palette, stretch)
 struct Unit { setmask mask; int pal, stretch; int pre = 0; };
 
-static Cell make_cell(const Scope &sc, const strs &U, const Unit &u) {
-  Cell cell; cell.pal = u.pal; cell.sigma = sc.sigma; cell.L = sc.L; cell.stretch = u.stretch;
-  str pre((size_t)u.pre, (char)PALETTES[u.pal].b[0]);
-  for (size_t i = 0; i < U.size(); i++) if ((u.mask >> i) & 1) cell.S.push_back(pre + concretise(U[i], PALETTES[u.pal], u.stretch));
-  std::sort(cell.S.begin(), cell.S.end(), ult);
-  cell.Q = query_universe(PALETTES[u.pal], sc.sigma, sc.L, u.stretch, sc.nf);
-  if (u.pre > 0) {   // queries: the prefixed universe, the bare prefix and its neighbours, and a few un-prefixed ones
-    strs q2; for (auto &q : cell.Q) q2.push_back(pre + q);
-    q2.push_back(pre); q2.push_back(pre.substr(1)); q2.push_back(pre + (char)PALETTES[u.pal].b[0]);
+static str rep_tag(int j) { char t[2] = {(char)('0' + j / 10), (char)('0' + j % 10)}; return str(t, 2); }
+// queries of a cell whose strings carry a common prefix of `pre` bytes and/or `rep` group tags
+static void shape_queries(Cell &cell, int pal, int pre, int rep) {
+  if (pre > 0) {   // queries: the prefixed universe, the bare prefix and its neighbours, and a few un-prefixed ones
+    str p((size_t)pre, (char)PALETTES[pal].b[0]);
+    strs q2; for (auto &q : cell.Q) q2.push_back(p + q);
+    q2.push_back(p); q2.push_back(p.substr(1)); q2.push_back(p + (char)PALETTES[pal].b[0]);
     for (size_t i = 0; i < cell.Q.size() && i < 6; i++) q2.push_back(cell.Q[i]);
     cell.Q = q2;
   }
-  cell.pre = u.pre;
+  if (rep > 1) {   // the universe under the first, a middle and the last tag; the bare tags; a few untagged ones
+    strs q2; std::set<str> seen;
+    auto add = [&](const str &q) { if (seen.insert(q).second) q2.push_back(q); };
+    for (int j : {0, rep / 2, rep - 1}) for (auto &q : cell.Q) add(rep_tag(j) + q);
+    add(rep_tag(0)); add(rep_tag(rep - 1)); add(rep_tag(rep)); add("0");
+    for (size_t i = 0; i < cell.Q.size() && i < 6; i++) add(cell.Q[i]);
+    cell.Q = q2;
+  }
+  cell.pre = pre; cell.rep = rep;
+}
+static Cell make_cell(const Scope &sc, const strs &U, const Unit &u) {
+  Cell cell; cell.pal = u.pal; cell.sigma = sc.sigma; cell.L = sc.L; cell.stretch = u.stretch;
+  str pre((size_t)u.pre, (char)PALETTES[u.pal].b[0]);
+  strs base;
+  for (size_t i = 0; i < U.size(); i++) if ((u.mask >> i) & 1) base.push_back(pre + concretise(U[i], PALETTES[u.pal], u.stretch));
+  if (sc.rep > 1) { if (sc.rep > 99) { fprintf(stderr, "rep <= 99\n"); exit(2); } for (int j = 0; j < sc.rep; j++) for (auto &b : base) cell.S.push_back(rep_tag(j) + b); }
+  else cell.S = base;
+  std::sort(cell.S.begin(), cell.S.end(), ult);
+  cell.Q = query_universe(PALETTES[u.pal], sc.sigma, sc.L, u.stretch, sc.nf);
+  shape_queries(cell, u.pal, u.pre, sc.rep);
   return cell;
 }
-
